@@ -230,7 +230,10 @@ impl From<(InsertionContext, Option<TelemetryMetrics>)> for Solution {
 /// Keeps track of some solution state values.
 #[derive(Clone, Default)]
 pub struct SolutionState {
+    #[cfg(not(kani))]
     index: HashMap<TypeId, Arc<dyn Any + Send + Sync>, BuildHasherDefault<FxHasher>>,
+    #[cfg(kani)]
+    index: crate::verif_containers::ListMap<TypeId, Arc<dyn Any + Send + Sync>>,
 }
 
 impl SolutionState {
@@ -257,7 +260,10 @@ pub struct RouteContext {
 /// wiped out at some point.
 #[derive(Clone)]
 pub struct RouteState {
+    #[cfg(not(kani))]
     index: HashMap<TypeId, Arc<dyn Any + Send + Sync>, BuildHasherDefault<FxHasher>>,
+    #[cfg(kani)]
+    index: crate::verif_containers::ListMap<TypeId, Arc<dyn Any + Send + Sync>>,
 }
 
 impl RouteContext {
@@ -340,9 +346,17 @@ impl Debug for RouteContext {
     }
 }
 
+#[cfg(not(kani))]
 impl Default for RouteState {
     fn default() -> RouteState {
         RouteState { index: HashMap::with_capacity_and_hasher(4, BuildHasherDefault::<FxHasher>::default()) }
+    }
+}
+
+#[cfg(kani)]
+impl Default for RouteState {
+    fn default() -> RouteState {
+        RouteState { index: crate::verif_containers::ListMap::with_capacity(4) }
     }
 }
 
